@@ -75,6 +75,10 @@ void vs_tzset(void) {
  * holds one would block the next thread for real, and nothing would ever run again).  In the scheduler builds the stream locks are mutexes of the
  * scheduler's model, one per standard stream; the serialising scheduler itself keeps the threads out of each other's way. */
 static pthread_mutex_t model_of_stream_lock[3];
+/* fork(): glibc re-creates the stream locks in the child before any child handler runs - so does the model */
+__attribute__((weak)) int vs_mutex_init(pthread_mutex_t *m, const pthread_mutexattr_t *a);
+static void stream_locks_in_child(void) { if (vs_mutex_init) for (int i = 0; i < 3; i++) vs_mutex_init(&model_of_stream_lock[i], NULL); }
+__attribute__((constructor)) static void stream_locks_setup(void) { pthread_atfork(NULL, NULL, stream_locks_in_child); }
 void vs_flockfile(FILE *f) { if (vs_mutex_lock && vs_mutex_unlock) vs_mutex_lock(&model_of_stream_lock[f == stdout ? 1 : f == stderr ? 2 : 0]); else flockfile(f); }
 void vs_funlockfile(FILE *f) { if (vs_mutex_lock && vs_mutex_unlock) vs_mutex_unlock(&model_of_stream_lock[f == stdout ? 1 : f == stderr ? 2 : 0]); else funlockfile(f); }
 
